@@ -6,7 +6,7 @@ SPECIFICATION Spec
 CONSTANTS
   Users = {"u1", "u2", "u3"}
   Chans = {"c1", "c2"}
-  Bodies = {"A", "Ae", "Ab", "B", "C", "Cn", "Ce", "D", "E", "Z", "R", "Xsyn", "Xtype", "Xdur", "Xhex", "Ah", "Bu", "Xbig"}
+  Bodies = {"A", "Ae", "Ab", "B", "C", "Cn", "Ce", "D", "E", "Z", "R", "Xsyn", "Xtype", "Xdur", "Xhex", "Ah", "Af", "Bu", "Xbig"}
   HdrKinds = {"cur", "curHex", "curOct", "stale", "future", "far", "missing", "garbage", "neg", "float", "space", "lead", "plus", "huge"}
   Vias = {"d", "b1:a1", "b1:a2", "bx:a1"}
   Creds = {"o1", "o2", "ox"}
